@@ -78,7 +78,8 @@ theorem fresh_plugin_has_whole_table (c : Chain) (s s' : Store) (body : List Stm
     (runTest c (construct s) body).overflow = (runTest c (construct s') body).overflow ∧
     (runTest c (construct s) body).done = (runTest c (construct s') body).done := by
   have := runBody_flags body (construct s) (construct s') 0 rfl
-  simpa [runTest] using this
+  simp only [runTest]
+  exact ⟨by rw [this.1], this.2.1, this.2.2⟩
 
 /-- **Tests that run without an enabled plugin** keep their entries recorded: the index grows by
     the number of redirections carried out, over any number of such tests, and never passes the
@@ -169,7 +170,8 @@ theorem each_test_as_if_alone (c : Chain) (hset : HasActiveSet c) (before : List
     (runTest c (runTests c s before) body).done = (runTest c s body).done := by
   have h := (consecutive_tests_independent c hset before s hempty).2
   have := runBody_flags body (runTests c s before) s 0 (by rw [h, hempty])
-  simpa [runTest] using this
+  simp only [runTest]
+  exact ⟨by rw [this.1], this.2.1, this.2.2⟩
 
 /-! ## order of the plugin actions -/
 
@@ -281,6 +283,96 @@ theorem get_by_name_finds (c : Chain) (name : String) :
   | cons p rest ih =>
     unfold getByName
     by_cases h : name = p.name <;> simp [List.find?_cons, h, ih]
+
+/-! ## the registry's view of the chain -/
+
+/-- `getPluginByName` returns the first plugin carrying the name; a name nobody carries yields NULL,
+    except the sentinel's own name, which yields the sentinel -/
+theorem lookup_spec (c : Chain) (name : String) :
+    lookup name c = match c.find? (fun p => name = p.name) with
+      | some p => .plugin p
+      | none => if name = nullName then .sentinel else .none := by
+  induction c with
+  | nil => simp [lookup]
+  | cons p rest ih =>
+    unfold lookup
+    by_cases h : name = p.name
+    · simp [h]
+    · simp [h, ih]
+
+/-- `resetPlugins` leaves the sentinel only: no plugin is counted, found or called -/
+theorem reset_leaves_sentinel_only (c : Chain) (name : String) :
+    countPlugins (reset c) = 0 ∧ firstPlugin (reset c) = none ∧
+    (lookup name (reset c) = if name = nullName then .sentinel else .none) ∧
+    runAllPre (reset c) = [] ∧ runAllPost (reset c) = [] := by
+  simp [reset, countPlugins, firstPlugin, lookup, runAllPre, runAllPost]
+
+/-- `countPlugins` and `getFirstPlugin` after install / remove -/
+theorem count_and_first (c : Chain) (p : Plugin) (name : String) (hu : UniqueNames c) :
+    countPlugins (install c p) = countPlugins c + 1 ∧ firstPlugin (install c p) = some p ∧
+    countPlugins (regRemove name c) = countPlugins c - (if name ∈ c.map (·.name) then 1 else 0) := by
+  refine ⟨by simp [install, countPlugins], rfl, ?_⟩
+  rw [remove_by_name_removes_exactly c name hu]
+  simp only [countPlugins]
+  induction c with
+  | nil => simp
+  | cons q rest ih =>
+    have hu' := hu
+    simp only [UniqueNames, List.map_cons, List.nodup_cons] at hu'
+    have ih' := ih hu'.2
+    by_cases hq : q.name = name
+    · subst hq
+      rw [List.filter_cons_of_neg (by simp), filter_eq_self_of_not_mem _ rest hu'.1]
+      simp
+    · rw [List.filter_cons_of_pos (by simpa using hq)]
+      have : (name ∈ (q :: rest).map (·.name)) ↔ (name ∈ rest.map (·.name)) := by
+        simp only [List.map_cons, List.mem_cons]
+        constructor
+        · rintro (h | h)
+          · exact absurd h.symm hq
+          · exact h
+        · exact Or.inr
+      simp only [List.length_cons, this, ih']
+      split
+      · next hm =>
+        have : 0 < rest.length := by
+          cases rest with
+          | nil => simp at hm
+          | cons _ _ => simp
+        omega
+      · omega
+
+/-! ## how the shell runs the test -/
+
+/-- **Separate process**: the pre actions, the body and the post actions all run (in the child, in
+    the same order, with the same verdict as in-process), and the calling process keeps its pointers
+    and its table exactly as they were -/
+theorem separate_process_leaves_caller_untouched (c : Chain) (s : Store) (body : List Stmt) :
+    (runTestKind .separate c s body).store = s ∧
+    (runTestKind .separate c s body).pre = (runTest c s body).pre ∧
+    (runTestKind .separate c s body).post = (runTest c s body).post ∧
+    (runTestKind .separate c s body).failed = (runTest c s body).failed := ⟨rfl, rfl, rfl, rfl⟩
+
+/-- **An ignored test** runs neither its body nor any plugin action; **a run-ignored one** is an
+    ordinary test -/
+theorem ignored_test_runs_nothing (c : Chain) (s : Store) (body : List Stmt) :
+    (runTestKind .ignored c s body).store = s ∧ (runTestKind .ignored c s body).pre = [] ∧
+    (runTestKind .ignored c s body).post = [] ∧ (runTestKind .ignored c s body).failed = false ∧
+    runTestKind .ignoredRun c s body = runTest c s body := ⟨rfl, rfl, rfl, rfl, rfl⟩
+
+/-- **A plugin that reports a failure in its pre action** makes the test fail and stops nothing:
+    the later plugins' pre actions, the whole body and every post action run exactly as if it were
+    an ordinary plugin, so the pointers are restored all the same -/
+theorem failing_pre_action_stops_nothing (c : Chain) (s : Store) (body : List Stmt)
+    (h : preFails c = true) :
+    (runTest c s body).failed = true ∧
+    (runTest c s body).store = postStore c (runBody s 0 body).store ∧
+    (runTest c s body).done = (runBody s 0 body).done ∧
+    (runTest c s body).pre = runAllPre c ∧ (runTest c s body).post = (runAllPre c).reverse ∧
+    (HasActiveSet c → s.table = [] → ∀ l, (runTest c s body).store.mem l = s.mem l) := by
+  refine ⟨by simp [runTest, h], rfl, rfl, rfl, runAllPost_eq c, ?_⟩
+  intro hset hempty l
+  exact (restore_all c s body hset hempty).1 l
 
 /-! ## non-vacuity -/
 
